@@ -524,3 +524,80 @@ func logOf(o TxOutcome) string {
 	}
 	return fmt.Sprintf("code=%d %s", o.Result.Code, o.Result.Log)
 }
+
+// OpenChannelsInterleaved drives n consumer-initiated channel handshakes over the same connection pair in lock step:
+// all INITs, then all TRYs, then all ACKs, then all CONFIRMs (the order in which concurrent relayers can deliver them).
+// It returns, per handshake, the step that was refused ("" = completed) and the channel ids.
+type hsResult struct {
+	FailedAt           string
+	ConsChan, ProvChan string
+	Log                string
+}
+
+func (l *Link) OpenChannelsInterleaved(s ChanSpec, consConn, provConn string, n int) []hsResult {
+	w := l.W
+	p, c := w.P, l.C
+	res := make([]hsResult, n)
+	versions := make([]string, n)
+	alive := func(i int) bool { return res[i].FailedAt == "" }
+	for i := 0; i < n; i++ {
+		o := w.stepOn(c, l.ConsClient, p, func(signer string) []sdk.Msg {
+			return []sdk.Msg{channeltypes.NewMsgChannelOpenInit(s.ConsPort, s.Version, s.Order, []string{consConn}, s.ProvPort, signer)}
+		})
+		if !o.OK() {
+			res[i].FailedAt, res[i].Log = "init", logOf(o)
+			continue
+		}
+		res[i].ConsChan = eventAttr(o.Result.Events, channeltypes.EventTypeChannelOpenInit, channeltypes.AttributeKeyChannelID)
+	}
+	w.Tick()
+	w.Produce(c, nil, nil)
+	for i := 0; i < n; i++ {
+		if !alive(i) {
+			continue
+		}
+		i := i
+		o := w.stepOn(p, l.ProvClient, c, func(signer string) []sdk.Msg {
+			proof, ph := proofAt(c, host.ChannelKey(s.ConsPort, res[i].ConsChan))
+			return []sdk.Msg{channeltypes.NewMsgChannelOpenTry(s.ProvPort, s.Version, s.Order, []string{provConn}, s.ConsPort, res[i].ConsChan, s.Version, proof, ph, signer)}
+		})
+		if !o.OK() {
+			res[i].FailedAt, res[i].Log = "try", logOf(o)
+			continue
+		}
+		res[i].ProvChan = eventAttr(o.Result.Events, channeltypes.EventTypeChannelOpenTry, channeltypes.AttributeKeyChannelID)
+		ch, _ := p.TC.App.GetIBCKeeper().ChannelKeeper.GetChannel(p.Ctx(), s.ProvPort, res[i].ProvChan)
+		versions[i] = ch.Version
+	}
+	w.Tick()
+	w.Produce(p, nil, nil)
+	for i := 0; i < n; i++ {
+		if !alive(i) {
+			continue
+		}
+		i := i
+		o := w.stepOn(c, l.ConsClient, p, func(signer string) []sdk.Msg {
+			proof, ph := proofAt(p, host.ChannelKey(s.ProvPort, res[i].ProvChan))
+			return []sdk.Msg{channeltypes.NewMsgChannelOpenAck(s.ConsPort, res[i].ConsChan, res[i].ProvChan, versions[i], proof, ph, signer)}
+		})
+		if !o.OK() {
+			res[i].FailedAt, res[i].Log = "ack", logOf(o)
+		}
+	}
+	w.Tick()
+	w.Produce(c, nil, nil)
+	for i := 0; i < n; i++ {
+		if !alive(i) {
+			continue
+		}
+		i := i
+		o := w.stepOn(p, l.ProvClient, c, func(signer string) []sdk.Msg {
+			proof, ph := proofAt(c, host.ChannelKey(s.ConsPort, res[i].ConsChan))
+			return []sdk.Msg{channeltypes.NewMsgChannelOpenConfirm(s.ProvPort, res[i].ProvChan, proof, ph, signer)}
+		})
+		if !o.OK() {
+			res[i].FailedAt, res[i].Log = "confirm", logOf(o)
+		}
+	}
+	return res
+}
